@@ -856,7 +856,28 @@ def main():
       for rel in (False, True):
         if not reqs:
             continue
-        res = run_parallel(binname, reqs, rel, workers=14, chunk=64, vlimit_kb=vlimit, watchdog_ms=wd)
+        order_run = order
+        if gs is lowmem_groups and len(reqs) > 2000:
+            # every 10th request first: if dozens of them crash the tree lacks the bounds altogether and the other nine
+            # tenths (thousands of watchdog periods) would only repeat the verdict
+            head = list(range(0, len(reqs), 10))
+            res_h = run_parallel(binname, [reqs[k] for k in head], rel, workers=14, chunk=16, vlimit_kb=vlimit, watchdog_ms=wd)
+            bad_h = sum(1 for r in res_h if not (isinstance(r, dict) and isinstance(r.get("render"), dict) and ("ok" in r["render"] or "err" in r["render"])))
+            if bad_h > 40:
+                hist["skipped_after_%d_crashes_in_sample" % bad_h] += len(reqs) - len(head)
+                order_run, reqs_run, res = [order[k] for k in head], [reqs[k] for k in head], res_h
+            else:
+                rest = [k for k in range(len(reqs)) if k % 10]
+                res_r = run_parallel(binname, [reqs[k] for k in rest], rel, workers=14, chunk=64, vlimit_kb=vlimit, watchdog_ms=wd)
+                res = [None] * len(reqs)
+                for k, r in zip(head, res_h):
+                    res[k] = r
+                for k, r in zip(rest, res_r):
+                    res[k] = r
+                reqs_run = reqs
+        else:
+            res = run_parallel(binname, reqs, rel, workers=14, chunk=64, vlimit_kb=vlimit, watchdog_ms=wd)
+            reqs_run = reqs
         total += len(res)
         # a request that did not answer within the watchdog while 14 shards (and whatever else) load the machine
         # gets a second chance alone with a 3 times longer watchdog before it counts as a hang (at most 2 per profile)
@@ -866,11 +887,11 @@ def main():
             env2["MJVERIF_WATCHDOG_MS"] = str(3 * wd)
             cmd2 = ["bash", "-c", "ulimit -v 8000000; exec " + bin_path(binname, rel)]
             for k in slow:
-                r2 = _run_chunk(cmd2, [reqs[k]], env2)
+                r2 = _run_chunk(cmd2, [reqs_run[k]], env2)
                 if r2 and not (isinstance(r2[0], dict) and r2[0].get("hang")):
                     res[k] = r2[0]
                     hist["answered_after_watchdog"] += 1
-        for i, r in zip(order, res):
+        for i, r in zip(order_run, res):
             gname, t, extra = flat[i]
             rr = r.get("render", r.get("fuel_levels", r)) if isinstance(r, dict) else {}
             if not isinstance(rr, dict):
@@ -928,8 +949,8 @@ def main():
     remaining.sort(key=lambda c: (len(c[1]), c[1], c[2]))  # the shortest crashing templates make the best replays
     for gname, t, prof, kind, detail in remaining:
         key = (gname, kind, t[:40])
-        if key in seen or len(seen) >= 8:
-            continue
+        if key in seen or len(seen) >= 14 or sum(1 for k in seen if k[0] == gname) >= 3:
+            continue  # a few (shortest) replays per generator so that one family does not crowd out another defect
         seen.add(key)
         rp = {"template": t, "template_len": len(t), "profile": prof, "observed": detail, "generator": gname}
         if (t, gname) in crash_extra:
